@@ -41,7 +41,7 @@ trait InputTextIndex {
 spec fn dist(nch: int, cpt: int, k: int) -> int { (if cpt + k <= nch { cpt + k } else { nch }) - cpt }
 
 /// what the analysis already produced at this position (analysis/created.rs, Kani set k_created)
-pub struct CreatedWords { _p: () }
+#[verifier::external_body] pub struct CreatedWords { _p: () }
 impl CreatedWords {
     uninterp spec fn sp_nonempty(&self) -> bool;
     #[verifier::external_body] fn not_empty(&self) -> (r: bool) ensures r == self.sp_nonempty() { unimplemented!() }
